@@ -38,13 +38,15 @@ type sfLoadKey struct {
 type sfEnv struct {
 	r *core.Run
 	// persistent fault per load key, decided (from tape F) the first time the key is seen
-	faulty    map[sfLoadKey]bool
-	faultMode bool // faults enabled in this run
-	loads     map[sfLoadKey]int
-	mutSerial int
-	reference bool // reference phase: faults are looked up, never decided; no parking
-	inflight  int
-	maxInfl   int
+	faulty map[sfLoadKey]bool
+	// badGateway: persistent per key as well: the subgraph answers 502 with an HTML body
+	badGateway map[sfLoadKey]bool
+	faultMode  bool // faults enabled in this run
+	loads      map[sfLoadKey]int
+	mutSerial  int
+	reference  bool // reference phase: faults are looked up, never decided; no parking
+	inflight   int
+	maxInfl    int
 	// wrapCancel: cancelled loads fail with a *url.Error wrapping the context error (net/http style)
 	wrapCancel bool
 }
@@ -98,12 +100,31 @@ func (d *sfDS) Load(ctx context.Context, headers http.Header, input []byte) ([]b
 	if !seen && !e.reference && e.faultMode {
 		bad = e.r.F.Prob(0.15)
 		e.faulty[fk] = bad
+		if !bad && e.r.F.Prob(0.12) {
+			e.badGateway[fk] = true
+		}
 	}
 	if bad {
 		if !e.reference {
 			e.r.Fault("load_error")
 		}
 		return nil, errors.New("injected upstream failure")
+	}
+	// what the HTTP client reports about the response (status, headers) travels beside the body
+	rc := httpclient.GetResponseContext(ctx)
+	if e.badGateway[fk] {
+		if !e.reference {
+			e.r.Fault("http_502_html")
+		}
+		if rc != nil {
+			rc.StatusCode = 502
+			rc.Response = &http.Response{StatusCode: 502, Header: http.Header{"X-Upstream": []string{d.id}}}
+		}
+		return []byte("<html><body>502 Bad Gateway</body></html>"), nil
+	}
+	if rc != nil {
+		rc.StatusCode = 200
+		rc.Response = &http.Response{StatusCode: 200, Header: http.Header{"X-Upstream": []string{d.id}}}
 	}
 	if d.mutation {
 		e.mutSerial++
@@ -251,7 +272,7 @@ func sfExec(res *resolve.Resolver, ctx context.Context, q *sfReq) (out, errs str
 
 func runSF(r *core.Run) {
 	const prop = "C11"
-	env := &sfEnv{r: r, faulty: map[sfLoadKey]bool{}, loads: map[sfLoadKey]int{}}
+	env := &sfEnv{r: r, faulty: map[sfLoadKey]bool{}, badGateway: map[sfLoadKey]bool{}, loads: map[sfLoadKey]int{}}
 	plans := sfPlans(env)
 	W := r.W
 	env.faultMode = r.Flag("nofaults") == "" && W.Prob(0.4)
